@@ -147,7 +147,13 @@ impl Add for Duration {
             None => {
                 // Overflowed, so we've hit the bound.
                 if self.centuries < 0 {
-                    // We've hit the negative bound, so return MIN.
+                    // We've hit the negative bound, unless the nanoseconds carry one century back into range.
+                    let nanoseconds = self.nanoseconds + rhs.nanoseconds;
+                    if i32::from(self.centuries) + i32::from(rhs.centuries) + 1 == i32::from(i16::MIN)
+                        && nanoseconds >= NANOSECONDS_PER_CENTURY
+                    {
+                        return Self::from_parts(i16::MIN, nanoseconds - NANOSECONDS_PER_CENTURY);
+                    }
                     return Self::MIN;
                 } else {
                     // We've hit the positive bound, so return MAX.
